@@ -40,30 +40,41 @@ func runC05(rc *RunCtx) {
 	if rc.Thorough() {
 		depth, budget, maxTraces = 5, 20*time.Minute, 0
 	}
+	runScenarioCheck(rc, scn, depth, budget, maxTraces, "C05")
+}
+
+// runScenarioCheck is the common shape of the model-checking checks: explore in mode A, replay
+// the BFS tree in mode B, write coverage.
+func runScenarioCheck(rc *RunCtx, scn *Scenario, depth int, budget time.Duration, maxTraces int, rejectedUnchanged string) *explore.Result {
 	sys := scnSystem{scn}
 	res := explore.Run(sys, explore.Options{MaxDepth: depth, Workers: rc.Workers, Budget: budget, KeepTree: true, Progress: func(s string) { rc.Logf("%s", s) }})
 	rc.ViolateAll(res.Violations)
 	events := sys.Events()
 	cov := CovFromResult(events, res)
-
-	// conformance + atomicity in mode B
-	conf := Conform(scn, events, res.Tree, ConformOpts{MaxTraces: maxTraces, Workers: rc.Workers, Seed: rc.Seed, Deadline: rc.Start.Add(budget + 3*time.Minute), RejectedUnchanged: "C05"})
-	rc.ViolateAll(conf.Violations)
-	cov["traces_validated_against_impl"] = conf.Traces - len(conf.Mismatches)
-	cov["conformance_traces_total"] = conf.TotalTraces
-	cov["conformance_steps"] = conf.Steps
-	cov["conformance_capped"] = conf.Capped
-	cov["rejected_tx_checked_in_B"] = conf.RejectedChecked
-	if len(conf.Mismatches) > 0 {
-		cov["conformance_mismatches"] = conf.Mismatches[:min(5, len(conf.Mismatches))]
-		rc.Notes = append(rc.Notes, "MACHINERY ERROR: mode A and mode B diverged")
-		rc.Logf("CONFORMANCE MISMATCH: %s", conf.Mismatches[0])
-		rc.MachineryError = true
+	cov["scenario"] = scn.Name
+	if scn.BlockFn == nil {
+		conf := Conform(scn, events, res.Tree, ConformOpts{MaxTraces: maxTraces, Workers: rc.Workers, Seed: rc.Seed, Deadline: rc.Start.Add(budget + 3*time.Minute), RejectedUnchanged: rejectedUnchanged})
+		rc.ViolateAll(conf.Violations)
+		cov["traces_validated_against_impl"] = conf.Traces - len(conf.Mismatches)
+		cov["conformance_traces_total"] = conf.TotalTraces
+		cov["conformance_steps"] = conf.Steps
+		cov["conformance_capped"] = conf.Capped
+		if rejectedUnchanged != "" {
+			cov["rejected_tx_checked_in_B"] = conf.RejectedChecked
+		}
+		if len(conf.Mismatches) > 0 {
+			cov["conformance_mismatches"] = conf.Mismatches[:min(5, len(conf.Mismatches))]
+			rc.Logf("CONFORMANCE MISMATCH: %s", conf.Mismatches[0])
+			rc.MachineryError = true
+		}
+	} else {
+		cov["traces_validated_against_impl"] = 0
 	}
 	rc.Cov = cov
 	rc.Level = "model_checking"
-	rc.Assume = []string{"Cosmos SDK / Tendermint are trusted", "block heights and non-custom SDK module stores are not part of state identity",
-		fmt.Sprintf("histories up to depth %d over the listed alphabet", res.DepthComplete)}
+	rc.Assume = append(rc.Assume, "Cosmos SDK / Tendermint are trusted", "block heights and non-custom SDK module stores are not part of state identity",
+		fmt.Sprintf("histories up to depth %d over the listed alphabet", res.DepthComplete))
+	return res
 }
 
 func min(a, b int) int {
